@@ -809,18 +809,13 @@ func (l *commitLog) cleanerLoop() {
 		}
 
 		// Check to see if the active segment should be split.
-		split, err := l.checkAndPerformSplit()
-		if err != nil {
+		if _, err := l.checkAndPerformSplit(); err != nil {
 			l.Logger.Errorf("Failed to split log %s: %v", l.Path, err)
 			continue
 		}
 
-		// If we rolled a new segment, we don't need to run the cleaner since
-		// it already ran.
-		if split {
-			continue
-		}
-
+		// Run the cleaner whether or not we rolled a new segment. Rolling a
+		// segment does not apply the retention limits.
 		if err := l.Clean(); err != nil {
 			l.Logger.Errorf("Failed to clean log %s: %v", l.Path, err)
 		}
